@@ -286,7 +286,7 @@ func builtTypes(fn *ssa.Function, seen map[*ssa.Function]bool) (typs map[string]
 			case *ssa.UnOp:
 				// load of a package-level var such as NopProcessor
 				if g, ok := x.X.(*ssa.Global); ok {
-					typs["global:"+g.Name()] = g.Type()
+					typs["global:"+globalName(g)] = g.Type()
 					continue
 				}
 				unknown = append(unknown, fmt.Sprintf("%s: %s", shortFuncName(fn), lv2.String()))
